@@ -474,7 +474,7 @@ def main(tier, seed):
                      "Poisson/Gamma: only count, start and monotonicity are promised"],
         required_stats=("loads", "deadlines_checked", "stochastic_release_sets",
                         "clusters_loaded"),
-        chunk=2, budget_s=200 if tier == "quick" else 2400, confirm_job=confirm_job)
+        chunk=2, budget_s=200 if tier == "quick" else 900, confirm_job=confirm_job)
     from . import _e1props
 
     e1 = _e1props.main("C19", tier, seed, finish=False,
